@@ -8,7 +8,7 @@
    "&#xNN;") is tied by the correspondence run of bin/vcheck C20 only. *)
 From Coq Require Import ZArith List Bool.
 From A1 Require Import Base.Bytes Base.Digits Leaf.BerTL Leaf.BerTLProofs
-     Tools.Unber Tools.Enber Tools.BerTree Tools.XxberProofs.
+     Tools.Unber Tools.Enber Tools.BerTree Tools.XxberProofs Tools.UnberOid.
 Import ListNotations.
 Local Open Scope Z_scope.
 
@@ -81,3 +81,27 @@ Theorem C20_xxber_tag_limit_refuted :
   unber (31 :: mark_cont (digits 128 5 two30) ++ [0]) = ([], XFail (DTagErr 5)).
 Proof. exact xxber_tag_limit_refuted. Qed.
 Print Assumptions C20_xxber_tag_limit_refuted.
+
+(* -- plain mode (no -p), OBJECT IDENTIFIER / RELATIVE-OID pretty-printer of
+      print_V: the arc count returned by OBJECT_IDENTIFIER_get_arcs on the contents
+      octets is at most tlv_len + 1 (the first subidentifier yields two arcs), the
+      one of RELATIVE_OID_get_arcs at most tlv_len: the two assert()s do not fire
+      and the reads arcs[0..arcno-1] stay inside the MALLOC(tlv_len + 1 slots)
+      block.  Model of the two functions: Leaf/Oid.v (tied to the C by C17). -- *)
+Theorem C20_oid_arc_count : forall bs l,
+  A1.Leaf.Oid.get_arcs bs = A1.Leaf.Oid.OArcs l -> (2 <= length l <= length bs + 1)%nat.
+Proof. exact A1.Tools.UnberOid.oid_arc_count. Qed.
+Print Assumptions C20_oid_arc_count.
+
+Theorem C20_reloid_arc_count : forall bs l,
+  A1.Leaf.Oid.reloid_get_arcs bs = A1.Leaf.Oid.OArcs l -> (length l <= length bs)%nat.
+Proof. exact A1.Tools.UnberOid.reloid_arc_count. Qed.
+Print Assumptions C20_reloid_arc_count.
+
+(* tlv_len + 1 is reached (all contents octets below 0x80), so a block of
+   tlv_len slots would be one short: the "+ 1" in print_V is necessary *)
+Theorem C20_oid_arc_count_tight : forall b tl,
+  A1.Tools.UnberOid.single_octets (b :: tl) ->
+  exists l, A1.Leaf.Oid.get_arcs (b :: tl) = A1.Leaf.Oid.OArcs l /\ length l = S (length (b :: tl)).
+Proof. exact A1.Tools.UnberOid.oid_arc_count_tight. Qed.
+Print Assumptions C20_oid_arc_count_tight.
